@@ -1,6 +1,7 @@
 package ir
 
 import (
+	"fmt"
 	"encoding/json"
 	"go/ast"
 	"go/types"
@@ -128,6 +129,7 @@ func (p *Program) ApplyFrozenNames(path string) (renamed int, err error) {
 	if err := json.Unmarshal(b, &frozen); err != nil {
 		return 0, err
 	}
+	p.detectFormChanges(frozen)
 	p.detectHelpers(frozen)
 	cur := p.CurrentNames()
 	for _, f := range p.Funcs {
@@ -216,3 +218,55 @@ func localName(fn *ssa.Function, name string) string {
 
 // LocalName is the frozen name of a local variable of fn (see the file comment).
 func LocalName(fn *ssa.Function, name string) string { return localName(fn, name) }
+
+// Method <-> function conversions. A private method `func (t *T) m(a)` rewritten as the function
+// `func m(t *T, a)` (or the reverse) is the same code under another spelling: go/ssa passes the
+// receiver as the first argument either way. When the frozen table knows the old spelling, the
+// program no longer has it, and a function of the new spelling with the same name exists (and is
+// itself unknown to the table), the new function goes by the old name: FuncName, callee names and
+// Func/TryFunc lookups all use it.
+type formAlias struct{ full, short string }
+
+var formAliases = map[*ssa.Function]formAlias{}
+
+func (p *Program) detectFormChanges(frozen NameTable) {
+	formAliases = map[*ssa.Function]formAlias{}
+	have := map[string]bool{}
+	for _, f := range p.Funcs {
+		if f.Parent() == nil {
+			have[plainFuncName(f)] = true
+		}
+	}
+	for _, f := range p.Funcs {
+		if f.Parent() != nil || f.Pkg == nil || f.Blocks == nil || RelPkg(f.Pkg.Pkg) == "" || f.Synthetic != "" {
+			continue
+		}
+		if _, known := frozen[plainFuncName(f)]; known {
+			continue
+		}
+		pk := RelPkg(f.Pkg.Pkg)
+		if f.Signature.Recv() == nil {
+			if len(f.Params) == 0 {
+				continue
+			}
+			t := f.Params[0].Type()
+			star := ""
+			if pt, ok := t.(*types.Pointer); ok {
+				t, star = pt.Elem(), "*"
+			}
+			nt, ok := t.(*types.Named)
+			if !ok || nt.Obj().Pkg() != f.Pkg.Pkg {
+				continue
+			}
+			cand := fmt.Sprintf("%s.(%s%s).%s", pk, star, nt.Obj().Name(), f.Name())
+			if _, was := frozen[cand]; was && !have[cand] {
+				formAliases[f] = formAlias{cand, f.Pkg.Pkg.Name() + "." + nt.Obj().Name() + "." + f.Name()}
+			}
+			continue
+		}
+		cand := pk + "." + f.Name()
+		if _, was := frozen[cand]; was && !have[cand] {
+			formAliases[f] = formAlias{cand, f.Pkg.Pkg.Name() + "." + f.Name()}
+		}
+	}
+}
